@@ -275,9 +275,10 @@ int padEncrypt(cipherInstance * cipher, keyInstance * key,
 	if (cipher == NULL || key == NULL || key->direction == DIR_DECRYPT) {
 		return BAD_CIPHER_STATE;
 	}
-	if (input == NULL || inputOctets <= 0) {
+	if (inputOctets < 0 || (input == NULL && inputOctets > 0)) {
 		return 0;				/* nothing to do */
 	}
+	/* The empty message is padded to one full block. */
 
 	numBlocks = inputOctets / 16;
 
